@@ -277,6 +277,18 @@ def explore_shape(prop, SH, OR, shape, validate=True, max_paths=None):
                 res['clauses'][name] = res['clauses'].get(name, 0) + 1
                 m = eng.check(cond)
                 res['queries'] += 1
+                if m is not None and extra:
+                    # the counterexample has to be a realisable input (same side constraints as the witness)
+                    eng.solver.push()
+                    for c in extra:
+                        eng.solver.add(c)
+                    m2 = eng.check(cond)
+                    eng.solver.pop()
+                    eng._model = None
+                    if m2 is None:
+                        res['inconclusive'].append("clause %s: violated only outside the realisable witness family" % name)
+                        continue
+                    m = m2
                 if m is not None:
                     ci = concretize(inp, m)
                     res['ces'].append(dict(clause=name, input=jsonable(ci)))
